@@ -113,11 +113,17 @@ func runC17(c *Check) {
 			}
 			callee := call.Common().StaticCallee()
 			timers, notify := 0, false
-			for _, cb := range callee.Blocks {
-				for _, ci := range cb.Instrs {
-					if s, ok := ci.(*ssa.Select); ok && s.Blocking {
+			// the loop body may sit in a closure of the loop function
+			bodies := append([]*ssa.Function{callee}, callee.AnonFuncs...)
+			for _, body := range bodies {
+				for _, cb := range body.Blocks {
+					for _, ci := range cb.Instrs {
+						s, ok := ci.(*ssa.Select)
+						if !ok || !s.Blocking {
+							continue
+						}
 						for _, st := range s.States {
-							t := TermOf(st.Chan, &Ctx{Fn: callee})
+							t := TermOf(st.Chan, &Ctx{Fn: body})
 							if t.Op == "field" && t.Name == "C" {
 								timers++
 							}
@@ -154,7 +160,10 @@ func runC17(c *Check) {
 		}})
 		c.NoteGraph(g)
 		fn := fnName(lazy)
-		sel := g.Select(func(n *Node) bool { s, ok := n.In.(*ssa.Select); return ok && s.Blocking && n.Ctx.Depth == 0 })
+		sel := g.Select(func(n *Node) bool {
+			s, ok := n.In.(*ssa.Select)
+			return ok && s.Blocking && (n.Ctx.Depth == 0 || (n.Ctx.Depth == 1 && n.Ctx.Fn.Parent() == g.Root))
+		})
 		flagStore := func(val string) NodePred {
 			return func(n *Node) bool {
 				st, ok := n.In.(*ssa.Store)
@@ -267,7 +276,10 @@ func runC17(c *Check) {
 		g := BuildECFG(p, normal, ExpandOpts{MaxDepth: 1, Stop: func(fn *ssa.Function) bool { return strings.Contains(fnName(fn), "publishBlockInternal") }})
 		c.NoteGraph(g)
 		fn := fnName(normal)
-		sel := g.Select(func(n *Node) bool { s, ok := n.In.(*ssa.Select); return ok && s.Blocking && n.Ctx.Depth == 0 })
+		sel := g.Select(func(n *Node) bool {
+			s, ok := n.In.(*ssa.Select)
+			return ok && s.Blocking && (n.Ctx.Depth == 0 || (n.Ctx.Depth == 1 && n.Ctx.Fn.Parent() == g.Root))
+		})
 		notifyEdges := selectCaseEdges(g, fieldNamed(notifyField))
 		if len(sel) != 1 || len(notifyEdges) == 0 {
 			c.Unk("C17-R4", "normal ⟂ anchors", fn, "", "anchor lost: select / notification case of the normal loop")
